@@ -180,6 +180,10 @@ def impl_part(ck, tier):
                             prog=[["advance", 12, 5], ["swap"], ["return"], ["shutdown"]])))
     scen.append(("n4_nodisplay", dict(temps=[1, 2, 2, 4], starts=[[-3, 4], [4, -3], [0, 1], [3, 3]], kind="gibbs", display=False,
                                       seed=s + 5, prog=[["advance", 11, 4], ["return"], ["shutdown"]])))
+    # Hamiltonian chains (piecewise-constant posterior, free flight between bounds): the start point's stored probability is used
+    # by the first exchange, before any step
+    scen.append(("n3_hmc", dict(temps=[1, 2, 4], starts=[[-3, 4], [4, -3], [0, 1]], kind="hmc", display=True, seed=s + 8,
+                                prog=[["swap"], ["steps", 2], ["swap"], ["advance", 6, 3], ["return"], ["shutdown"]])))
     if tier == "thorough":
         scen.append(("n5_pca", dict(temps=[1, 1, 2, 4, 4], starts=[[-3, 4], [4, -3], [0, 1], [3, 3], [-2, -2]], kind="pca", display=True,
                                     seed=s + 6, prog=[["advance", 64, 7], ["return"], ["advance", 5, 10], ["return"], ["shutdown"]])))
